@@ -108,6 +108,7 @@ class Dirty:
             # the developer's tree may hold many other uncommitted files (listed before the pattern files by git)
             case["many"] = [0, 0, 14, 0][index4]
             case["user_config"] = USER_CONFIGS[(index // 7) % len(USER_CONFIGS)] if index4 == 3 else None
+            case["link"] = [None, None, None, "a.txt", "docs/series.txt"][(index // 3) % 5] if index4 == 1 else None
         else:
             rng = runner.rng_for(seed, self.name, index)
             dirt = []
@@ -128,6 +129,7 @@ class Dirty:
                         {"status": rng.choice(["modified_unstaged", "modified_staged", "modified_both"]), "target": "pattern", "path": "a.txt"}]
             case = {"dirt": dirt, "allow": rng.random() < 0.6, "many": rng.choice([0, 0, 0, 9, 11, 12, 30]),
                     "user_config": rng.choice(USER_CONFIGS),
+                    "link": rng.choice([None, None, None, None, "a.txt", "docs/series.txt"]),
                     "extra": rng.choice([[], [], ["--ignore-vcs-tag"], ["--tag-scope", "global"], ["--tag-scope", "branch"],
                                          ["--pin-increments"], ["--commit"], ["--tag-commit"], ["--no-push"]])}
         case["ops"] = [{"op": "update"}]
@@ -157,6 +159,11 @@ class Dirty:
                 fobj.write(b"in progress\n")
         if many:
             ctx.probe("many_unrelated_dirty_files")
+        if case.get("link") and os.path.exists(os.path.join(d, case["link"])):
+            # an untracked symlink that points at a pattern file (LATEST -> a.txt): an untracked file like any other, the
+            # pattern file itself is as clean or dirty as it was
+            os.symlink(case["link"], os.path.join(d, "LATEST"))
+            ctx.probe("untracked_symlink_to_pattern_file")
         for x in case["dirt"]:
             apply_status(rg, d, x["path"], x["status"], x["target"] == "pattern")
         porcelain = rg.status()
